@@ -14,7 +14,9 @@ structure FrOps (P : FS → Prop) : Prop where
   handover : ∀ fs t n, P fs → P (fs.handover t n)
   closeKeep : ∀ fs t, P fs → P (fs.closeKeep t)
   request : ∀ fs t b, P fs → P (fs.request t b)
-  pushLevel : ∀ fs, P fs → P fs.pushLevel
+  pushLevel : ∀ fs mc, P fs → P (fs.pushLevel mc)
+  visit : ∀ fs k, P fs → P (fs.visit k)
+  failTok : ∀ fs, P fs → P fs.failTok
   launch : ∀ fs t ns, P fs → P (fs.launch t ns)
   startBranch : ∀ fs, P fs → P fs.startBranch
   endBranch : ∀ fs t b, P fs → P (fs.endBranch t b)
@@ -28,7 +30,9 @@ include ops
 theorem FrOps.st_handover {b : St} (n : Str) (h : P b.fs) : P (b.handover n).fs := ops.handover _ _ _ h
 theorem FrOps.st_closeKeep {b : St} (h : P b.fs) : P b.closeKeep.fs := ops.closeKeep _ _ h
 theorem FrOps.st_request {b : St} (t : Bool) (h : P b.fs) : P (b.request t).fs := ops.request _ _ _ h
-theorem FrOps.st_pushLevel {b : St} (h : P b.fs) : P b.pushLevel.fs := ops.pushLevel _ h
+theorem FrOps.st_pushLevel {b : St} (mc : Nat) (h : P b.fs) : P (b.pushLevel mc).fs := ops.pushLevel _ _ h
+theorem FrOps.st_visit {b : St} (ty : Str) (h : P b.fs) : P (b.visit ty).fs := ops.visit _ _ h
+theorem FrOps.st_failTok {b : St} (h : P b.fs) : P b.failTok.fs := ops.failTok _ h
 theorem FrOps.st_launch {b : St} (ns : List Str) (h : P b.fs) : P (b.launch ns).fs := ops.launch _ _ _ h
 theorem FrOps.st_startBranch {b : St} (h : P b.fs) : P b.startBranch.fs := ops.startBranch _ h
 theorem FrOps.st_endBranch {b : St} (f : Bool) (h : P b.fs) : P (b.endBranch f).fs := ops.endBranch _ _ _ h
@@ -105,6 +109,8 @@ local macro "pres_step" : tactic => `(tactic|
     | with_reducible apply ops.st_closeKeep
     | with_reducible apply ops.st_request
     | with_reducible apply ops.st_pushLevel
+    | with_reducible apply ops.st_visit
+    | with_reducible apply ops.st_failTok
     | with_reducible apply ops.st_launch
     | with_reducible apply ops.st_join
     | with_reducible apply ops.st_retryAfter
@@ -247,7 +253,9 @@ theorem wfOps : FrOps FS.WF where
   handover := fun _ t n h => h.handover t n
   closeKeep := fun _ t h => h.closeKeep t
   request := fun _ t b h => h.request t b
-  pushLevel := fun _ h => h.pushLevel
+  pushLevel := fun _ mc h => h.pushLevel mc
+  visit := fun _ k h => h.visit k
+  failTok := fun _ h => h.failTok
   launch := fun _ t ns h => h.launch t ns
   startBranch := fun _ h => h.startBranch
   endBranch := fun _ t b h => h.endBranch t b
@@ -299,6 +307,8 @@ theorem Bal.fr {a b : St} (h : Bal a b) (f : FS → FS) (hf : (f b.fs).lvl = b.f
 theorem Bal.handover {a b : St} (n : Str) (h : Bal a b) : Bal a (b.handover n) := h.fr _ (fs_handover_lvl _ _ _)
 theorem Bal.closeKeep {a b : St} (h : Bal a b) : Bal a b.closeKeep := h.fr _ (fs_closeKeep_lvl _ _)
 theorem Bal.request {a b : St} (t : Bool) (h : Bal a b) : Bal a (b.request t) := h.fr _ (fs_request_lvl _ _ _)
+theorem Bal.visit {a b : St} (ty : Str) (h : Bal a b) : Bal a (b.visit ty) := h.fr _ ⟨rfl, rfl⟩
+theorem Bal.failTok {a b : St} (h : Bal a b) : Bal a b.failTok := h.fr _ ⟨rfl, rfl⟩
 theorem Bal.retryAfter {a b : St} (n : Str) (d : Rat) (h : Bal a b) : Bal a (b.retryAfter n d) :=
   (h.handover n).closeKeep
 theorem Bal.exit {a b : St} (ty n : Str) (d : Json) (h : Bal a b) : Bal a (b.exit ty n d) := h
@@ -373,6 +383,8 @@ local macro "bal_step" : tactic => `(tactic|
     | with_reducible apply Bal.closeKeep
     | with_reducible apply Bal.request
     | with_reducible apply Bal.retryAfter
+    | with_reducible apply Bal.visit
+    | with_reducible apply Bal.failTok
     | exact Bal.refl _))
 
 theorem bal_runFrom_step (states : Json) (name : Str) (data ctx : Json) (r : Nat) (st : St) :
